@@ -12,7 +12,7 @@ theorem setLock_shape (cfg : Cfg) (w : World) (k : String) (tok : Bytes) (ms : N
   simp only [step, stepM, call, M.bind, clientCall, failed, isPing]
   by_cases hd : cfg.down w.calls = true
   · cases hs : cfg.suppress <;> simp [hd, hs, M.pure, outOf]
-  · by_cases he : (w.srv.exec (.set k tok (some ms) .nx)).2 = .err
+  · by_cases he : (w.srv.exec (.set k tok (pxOf (some ms)) .nx)).2 = .err
     · cases hs : cfg.suppress <;> simp [hd, he, hs, M.pure, outOf]
     · simp [hd, he, M.pure, outOf]
 
